@@ -376,6 +376,9 @@ class Engine:
         if isinstance(t, ast.Subscript):
             obj = self.ev(t.value, env, pc)
             if isinstance(obj, Shaped):
+                hook = getattr(self.c, "store_subscript", None)
+                if hook is not None:
+                    hook(self, obj, t, v, env, pc)
                 return  # content store: shape unchanged
             idx = self.ev(t.slice, env, pc) if not isinstance(t.slice, (ast.Slice, ast.Tuple)) else None
             if isinstance(obj, ZList) and idx is not None:
@@ -384,6 +387,11 @@ class Engine:
                 return
             if isinstance(obj, list) and isinstance(idx, int):
                 obj[idx] = v
+                return
+        if isinstance(t, ast.Attribute) and isinstance(t.value, ast.Name):
+            hook = getattr(self.c, "store_attr", None)
+            if hook is not None:
+                hook(self, t.value.id, t.attr, v, env, pc)
                 return
         raise Unsupported("assignment target %s" % ast.unparse(t))
 
